@@ -2,7 +2,7 @@
 # developer aid: confirm a sub-agent's seeded change in its scratch worktree, then file it under /verif/seeded/
 # usage: confirm_seed.sh C05 A [cargo-test-extra-args]
 id=$1; v=$2; extra=$3
-wt=/tmp/mut/$id; src=/tmp/mut/$id-out/$v
+wt=/tmp/mut/${PFX}$id; src=/tmp/mut/${PFX}$id-out/$v
 lv=$(echo $v | tr 'AB' 'ab')
 cd $wt || exit 2
 git checkout -q -- . ; rm -f tests/demo_*.rs examples/demo_*.rs
